@@ -82,6 +82,19 @@ Fixpoint set (x : string) (v : value) (r : env) : env :=
   | (y, w) :: r' => if String.eqb x y then (y, v) :: r' else (y, w) :: set x v r'
   end.
 
+Lemma lookup_set_eq x v r : lookup x (set x v r) = v.
+Proof.
+  induction r as [|[y w] r IH]; cbn [set lookup]; [now rewrite String.eqb_refl|].
+  destruct (String.eqb x y) eqn:E; cbn [lookup]; rewrite E; [reflexivity | exact IH].
+Qed.
+Lemma lookup_set_neq x y v r : String.eqb x y = false -> lookup x (set y v r) = lookup x r.
+Proof.
+  intros H. induction r as [|[z w] r IH]; cbn [set lookup]; [now rewrite H|].
+  destruct (String.eqb y z) eqn:E; cbn [lookup].
+  - apply String.eqb_eq in E. subst z. now rewrite H.
+  - destruct (String.eqb x z); [reflexivity | exact IH].
+Qed.
+
 (* ---- values ---- *)
 Fixpoint ascii_list_eqb (a b : list ascii) : bool :=
   match a, b with
@@ -351,6 +364,7 @@ Fixpoint eval (e : expr) (r : env) {struct e} : value :=
                 | Some e => e
                 | None => match x, y with
                           | VInt p, VInt q => VInt (p * q)
+                          | VList l, VInt q => VList (List.concat (repeat l (Z.to_nat q)))      (* [v] * n *)
                           | _, _ => match as_Q x, as_Q y with
                                     | Some p, Some q => VQ (Qred (p * q))
                                     | _, _ => VErr
@@ -362,7 +376,10 @@ Fixpoint eval (e : expr) (r : env) {struct e} : value :=
                 | Some e => e
                 | None => match x, y with
                           | VInt _, VInt q => if Z.eqb q 0 then VExc else VOpaque
-                          | _, _ => VErr
+                          | _, _ => match as_Q x, as_Q y with
+                                    | Some p, Some q => if Qeq_bool q 0 then VExc else VQ (Qred (p / q))
+                                    | _, _ => VErr
+                                    end
                           end
                 end
   | ELen a => match eval a r with
@@ -652,6 +669,47 @@ Proof.
   destruct (exec body (set x v r)); try reflexivity; apply IH.
 Qed.
 
+(* ---- small-step evaluation rules (cbn on an expression with abstract operands expands every error branch; these
+   lemmas rewrite with the operands' values instead) ---- *)
+Lemma eval_var x r : eval (EVar x) r = lookup x r. Proof. reflexivity. Qed.
+Lemma eval_const v r : eval (EConst v) r = v. Proof. reflexivity. Qed.
+Lemma eval_slice_list a lo hi r l i j : eval a r = VList l -> eval lo r = VInt i -> eval hi r = VInt j ->
+  eval (ESlice a lo hi) r = match slice_bounds (List.length l) (VInt i) (VInt j) with
+                            | Some (i', j') => VList (firstn (j' - i') (skipn i' l))
+                            | None => VErr
+                            end.
+Proof. intros Ha Hl Hh. cbn [eval]. rewrite Ha, Hl, Hh. reflexivity. Qed.
+Lemma eval_index_list a i r l k v : eval a r = VList l -> eval i r = VInt k -> index_val l k = Some v -> eval (EIndex a i) r = v.
+Proof. intros Ha Hi Hv. cbn [eval]. rewrite Ha, Hi. cbn [bad2]. now rewrite Hv. Qed.
+Lemma eval_add_int a b r x y : eval a r = VInt x -> eval b r = VInt y -> eval (EAdd a b) r = VInt (x + y).
+Proof. intros Ha Hb. cbn [eval]. rewrite Ha, Hb. reflexivity. Qed.
+Lemma eval_add_Q a b r p q : eval a r = VQ p -> eval b r = VQ q -> eval (EAdd a b) r = VQ (Qred (p + q)).
+Proof. intros Ha Hb. cbn [eval]. rewrite Ha, Hb. reflexivity. Qed.
+Lemma eval_sub_Q a b r p q : eval a r = VQ p -> eval b r = VQ q -> eval (ESub a b) r = VQ (Qred (p - q)).
+Proof. intros Ha Hb. cbn [eval]. rewrite Ha, Hb. reflexivity. Qed.
+
+Lemma eval_lt_Q a b r p q : eval a r = VQ p -> eval b r = VQ q -> eval (ELt a b) r = VBool (Qltb p q).
+Proof. intros Ha Hb. cbn [eval]. rewrite Ha, Hb. reflexivity. Qed.
+Lemma eval_toint_int a r z : eval a r = VInt z -> eval (EToInt a) r = VInt z.
+Proof. intros H. cbn [eval]. now rewrite H. Qed.
+Lemma eval_sub_int a b r x y : eval a r = VInt x -> eval b r = VInt y -> eval (ESub a b) r = VInt (x - y).
+Proof. intros Ha Hb. cbn [eval]. rewrite Ha, Hb. reflexivity. Qed.
+Lemma eval_eq_int a b r x y : eval a r = VInt x -> eval b r = VInt y -> eval (EEq a b) r = VBool (x =? y).
+Proof. intros Ha Hb. cbn [eval]. rewrite Ha, Hb. reflexivity. Qed.
+Lemma eval_call0 f r : eval (ECall f []) r = prim f []. Proof. reflexivity. Qed.
+Lemma eval_call1 f a r v : eval a r = v -> is_bad v = false -> eval (ECall f [a]) r = prim f [v].
+Proof. intros <- H. cbn [eval]. destruct (eval a r); try discriminate H; reflexivity. Qed.
+Lemma eval_call2 f a b r v w : eval a r = v -> eval b r = w -> is_bad v = false -> is_bad w = false -> eval (ECall f [a; b]) r = prim f [v; w].
+Proof. intros <- <- H1 H2. cbn [eval]. destruct (eval a r); try discriminate H1; destruct (eval b r); try discriminate H2; reflexivity. Qed.
+Lemma eval_call3 f a b c r v w u : eval a r = v -> eval b r = w -> eval c r = u -> is_bad v = false -> is_bad w = false -> is_bad u = false ->
+  eval (ECall f [a; b; c]) r = prim f [v; w; u].
+Proof.
+  intros <- <- <- H1 H2 H3. cbn [eval]. destruct (eval a r); try discriminate H1; destruct (eval b r); try discriminate H2;
+  destruct (eval c r); try discriminate H3; reflexivity.
+Qed.
+Lemma eval_listlit2 a b r v w : eval a r = v -> eval b r = w -> is_bad v = false -> is_bad w = false -> eval (EListLit [a; b]) r = VList [v; w].
+Proof. intros <- <- H1 H2. cbn [eval]. destruct (eval a r); try discriminate H1; destruct (eval b r); try discriminate H2; reflexivity. Qed.
+
 (* ---- program shape: loop-free statements, one top-level for-loop, the rest ---- *)
 Fixpoint exec_list (l : list stmt) (r : env) : outcome :=
   match l with
@@ -803,6 +861,28 @@ Proof.
   rewrite exec_seq. destruct (exec a r); try reflexivity. apply IHb.
 Qed.
 
+(* ---- frame-style rules: one statement at a time over an ABSTRACT environment (used where the environment has many
+   variables: the facts needed are lookups, and everything not assigned keeps its value) ---- *)
+Lemma exec_assign_ok x e r v : eval e r = v -> is_bad v = false -> exec (SAssign x e) r = ONorm (set x v r).
+Proof. intros <- H. cbn [exec]. destruct (eval e r); try discriminate H; reflexivity. Qed.
+
+Lemma exec_setitem_list x k e r l i v l' : lookup x r = VList l -> eval k r = VInt i -> eval e r = v -> is_bad v = false ->
+  list_set l i v = Some l' -> exec (SSetItem x k e) r = ONorm (set x (VList l') r).
+Proof. intros Hx Hk <- Hv Hl. cbn [exec]. rewrite Hx, Hk. destruct (eval e r); try discriminate Hv; rewrite Hl; reflexivity. Qed.
+
+Lemma exec_if_true c a b r : truthy (eval c r) = VBool true -> exec (SIf c a b) r = exec a r.
+Proof. intros H. rewrite exec_if, H. reflexivity. Qed.
+Lemma exec_if_false c a b r : truthy (eval c r) = VBool false -> exec (SIf c a b) r = exec b r.
+Proof. intros H. rewrite exec_if, H. reflexivity. Qed.
+
+Lemma exec_return_ok e r v : eval e r = v -> is_bad v = false -> exec (SReturn e) r = ORet v.
+Proof. intros <- H. cbn [exec]. destruct (eval e r); try discriminate H; reflexivity. Qed.
+
+Lemma exec_list_cons st l r : exec_list (st :: l) r = match exec st r with ONorm r' => exec_list l r' | other => other end.
+Proof. reflexivity. Qed.
+Lemma exec_list_app l1 : forall l2 r, exec_list (l1 ++ l2) r = match exec_list l1 r with ONorm r' => exec_list l2 r' | other => other end.
+Proof. induction l1 as [|x l1 IH]; intros l2 r; [reflexivity|]. cbn [app exec_list]. destruct (exec x r); try reflexivity. apply IH. Qed.
+
 (* the loop of SWhile, as a function of the remaining fuel *)
 Fixpoint run_while (c : expr) (body : stmt) (k : nat) (r : env) : outcome :=
   match k with
@@ -830,6 +910,29 @@ End Interp.
 Arguments exec_for {prim wfuel}.
 Arguments exec_seq {prim wfuel}.
 Arguments exec_if {prim wfuel}.
+Arguments eval_var {prim}.
+Arguments eval_call0 {prim}.
+Arguments eval_toint_int {prim}.
+Arguments eval_sub_int {prim}.
+Arguments eval_eq_int {prim}.
+Arguments eval_lt_Q {prim}.
+Arguments eval_call1 {prim}.
+Arguments eval_call2 {prim}.
+Arguments eval_call3 {prim}.
+Arguments eval_listlit2 {prim}.
+Arguments eval_const {prim}.
+Arguments eval_slice_list {prim}.
+Arguments eval_index_list {prim}.
+Arguments eval_add_int {prim}.
+Arguments eval_add_Q {prim}.
+Arguments eval_sub_Q {prim}.
+Arguments exec_assign_ok {prim wfuel}.
+Arguments exec_setitem_list {prim wfuel}.
+Arguments exec_if_true {prim wfuel}.
+Arguments exec_if_false {prim wfuel}.
+Arguments exec_return_ok {prim wfuel}.
+Arguments exec_list_cons {prim wfuel}.
+Arguments exec_list_app {prim wfuel}.
 Arguments exec_split {prim wfuel}.
 Arguments exec_while {prim wfuel}.
 Arguments exec_spine {prim wfuel}.
